@@ -91,6 +91,7 @@ type secSpec struct {
 	name      string
 	nin, nout int
 	useRam    bool
+	callFrag  string // a templated fragment reached through the dynamical call instruction (call4s <fragment>); the section carries its parameter k:<n>
 }
 
 func reg(t *rapid.T, n int, l string) string {
@@ -131,6 +132,9 @@ func genTextBody(t *rapid.T, b *strings.Builder, s secSpec, rsize int, macros []
 		// dynamically created instructions (pkg/procbuilder dynamical_*.go): the assembler registers them in the
 		// order in which its walk over the sections map meets them
 		kinds = append(kinds, "dyn", "dyn")
+		if s.callFrag != "" {
+			kinds = append(kinds, "call", "call")
+		}
 		afterLabel = false
 		switch rapid.SampledFrom(kinds).Draw(t, "ik") {
 		case "rset":
@@ -164,6 +168,8 @@ func genTextBody(t *rapid.T, b *strings.Builder, s secSpec, rsize int, macros []
 			fmt.Fprintf(b, "        %s\n", rapid.SampledFrom(macros).Draw(t, "mac"))
 		case "dyn":
 			fmt.Fprintf(b, "        %s %s, %s\n", rapid.SampledFrom(dynOps(rsize)).Draw(t, "dynop"), reg(t, nreg, "ra"), reg(t, nreg, "rb"))
+		case "call":
+			fmt.Fprintf(b, "        call4s %s\n", s.callFrag)
 		}
 	}
 	for k := 0; k < s.nout; k++ {
@@ -205,10 +211,22 @@ func genSectionsPart(t *rapid.T, b *strings.Builder, rsize int, macros []string,
 		iomodes = iomodes[1:]
 	}
 	var secs []secSpec
+	// one source in four: a templated fragment that the sections reach through the dynamical call instruction,
+	// every section giving its own value to the template parameter
+	callFrag := ""
+	if rapid.IntRange(0, 3).Draw(t, "callfrag") == 0 {
+		callFrag = "addk"
+		fmt.Fprintf(b, "%%fragment addk template:true\n        rset r1,{{.Params.k}}\n        add r0,r1\n%%endfragment\n")
+	}
 	for i := 0; i < nsec; i++ {
 		s := secSpec{name: names[i], nin: rapid.IntRange(0, 2).Draw(t, "nin"), nout: rapid.IntRange(1, 2).Draw(t, "nout"), useRam: rapid.IntRange(0, 3).Draw(t, "useram") == 0}
+		kmeta := ""
+		if callFrag != "" && rapid.IntRange(0, 3).Draw(t, "usescall") != 0 {
+			s.callFrag = callFrag
+			kmeta = fmt.Sprintf(" k:%d", rapid.IntRange(1, 9).Draw(t, "kparam"))
+		}
 		secs = append(secs, s)
-		fmt.Fprintf(b, "%%section %s .romtext%s\n", s.name, rapid.SampledFrom(iomodes).Draw(t, "iomode"))
+		fmt.Fprintf(b, "%%section %s .romtext%s%s\n", s.name, rapid.SampledFrom(iomodes).Draw(t, "iomode"), kmeta)
 		genTextBody(t, b, s, rsize, macros)
 		fmt.Fprintf(b, "%%endsection\n")
 	}
@@ -258,6 +276,8 @@ func genSectionsPart(t *rapid.T, b *strings.Builder, rsize int, macros []string,
 		}
 		if len(ramd) > 0 && (s.useRam || rapid.Bool().Draw(t, "hasramd")) {
 			line += ", ramdata:" + rapid.SampledFrom(ramd).Draw(t, "ramd")
+		} else if s.callFrag != "" {
+			line += ", ramsize:4" // the call stack
 		}
 		if rapid.IntRange(0, 4).Draw(t, "execmode") == 0 {
 			line += ", execmode:ha"
